@@ -199,11 +199,17 @@ class Builder:
                     out.append('    __typeof__(%s) %s = %s;' % (inner, olds[full], inner))
         for a in fs.assigns:
             out.append('    VERIF_HAVOC(%s);' % a)
+            v = self.tr.tm.valid_for(a, dict((n, t) for t, n, _ in f.params))
+            if v:
+                out.append('    __CPROVER_assume(%s);' % v)
         out.append('    { _Bool verif_t; if (!verif_thrown) verif_thrown = verif_t; }   /* may throw unless the contract says otherwise */')
         for d in fs.lets:
             out.append('    ' + d)
         if f.ret != 'void':
             out.append('    %s verif_ret;' % f.ret)
+            v = self.tr.tm.valid(f.ret, 'verif_ret')
+            if v:
+                out.append('    __CPROVER_assume(%s);' % v)
         for nm, e in fs.ensures:
             if '@' in nm:
                 tags = nm.split('@')[1].split('|')
@@ -227,8 +233,12 @@ class Builder:
             if isref:
                 base = ct.rstrip(' *').rstrip()
                 out.append('    %s verif_obj_%s; %s %s = &verif_obj_%s;' % (base, name, ct, name, name))
+                v = self.tr.tm.valid(base, 'verif_obj_' + name)
             else:
                 out.append('    %s %s;' % (ct, name))
+                v = self.tr.tm.valid(ct, name)
+            if v:
+                out.append('    __CPROVER_assume(%s);   /* type invariant of the input (bool is 0/1) */' % v)
             args.append(name)
         for d in fs.decls:
             out.append('    ' + d)
